@@ -27,7 +27,7 @@ STAGES = {
     "C09": [S("e_seq", "asu", 40000, 1200000), S("e_tbb", "asu", 15000, 400000)],
     "C15": [S("e_seq", "asu", 40000, 1200000)],
     "C03": [S("e_tbb", "asu", 25000, 800000), S("e_tbb", "tsan", 12000, 400000, gate=False)],
-    "C20": [S("e_tbb", "asu", 12000, 200000), S("e_demo_mcb", "asu", 6000, 100000), S("e_demo_approx", "asu", 6000, 100000)],
+    "C20": [S("e_knobreal", "asu", 3000, 30000), S("e_tbb", "asu", 12000, 200000), S("e_demo_mcb", "asu", 6000, 100000), S("e_demo_approx", "asu", 6000, 100000)],
     "C07": [S("e_seq", "asu", 4000, 120000, leakcheck=True), S("e_comp", "asu", 4000, 120000, leakcheck=True), S("e_tbb", "asu", 2500, 80000, leakcheck=True),
             S("e_mpi", "asu", 2000, 60000, leakcheck=True), S("e_tbb", "tsan", 1500, 40000, gate=False), S("e_mpi", "tsan", 1000, 30000, gate=False),
             S("e_demo_mcb", "asu", 600, 15000, leakcheck=True), S("e_demo_approx", "asu", 600, 15000, leakcheck=True), S("e_demo_stats", "asu", 400, 8000, leakcheck=True), S("e_demo_mpi", "asu", 600, 15000, leakcheck=True),
